@@ -302,7 +302,6 @@ def check_history(case, excl=frozenset()):
         v3 = any(is_v3(x) for x in vals)
         used_v3 = used_v3 or v3
         bypass = op[0] in BYPASS
-        bypassed = bypassed or (bypass and v3)
         try:
             derived = apply_op(g, op)
             outcome = 'ok'
@@ -310,6 +309,7 @@ def check_history(case, excl=frozenset()):
             outcome = 'ValueError'
         except Exception as e:  # noqa
             raise Violation('mutator-raises', dict(case, step=step), '%r raised %s' % (op[0], describe_exc(e)), (op[0],))
+        bypassed = bypassed or (bypass and v3 and outcome == 'ok')
         if op[0] in DERIVE and outcome == 'ok':
             # a grid derived by slicing/filtering carries the version of its source as an explicit label; the
             # history continues on the derived grid, the source must not change any more
@@ -338,7 +338,11 @@ def check_history(case, excl=frozenset()):
             if content_has_v3(before) and (refuses(before[1]) is not False):
                 return used_v3
             raise Violation('grid-refuses-legal-value', dict(case, step=step), '%r raised ValueError although the grid is consistent' % op[0], (op[0],))
-        if bypass or not v3:
+        if bypass and v3 and outcome != 'ok' and v is not None and ref is not False:
+            # a path that is not validated today may be validated tomorrow: refusing a 3.0-only value under a label
+            # below 3.0 at the grid already is the gate the property asks for (the grid must be unchanged, see below)
+            pass
+        elif bypass or not v3:
             if outcome != 'ok':
                 raise Violation('grid-refuses-legal-value', dict(case, step=step), '%r raised ValueError for a 2.0-legal value' % op[0], (op[0],))
         elif v is None:
